@@ -8,11 +8,13 @@ All statements are about the model functions of Model/Layout.lean (`evictSameCoo
 `handleTapDance`, `tickWtTd`, `tickWt`, `tickMain`, `dequeue`, `dispatch`, `tickPre`), for all list
 lengths, timeouts, queue contents and numbers of ticks.
 
-What is FALSE of the code (and proved so below): "every tap is either counted or starts a new
-dance".  `evict_same_coord_events` drops every queued press of the key when the dance ends, also
-presses that were not counted (`late_tap_is_dropped`, `press_behind_interrupt_is_dropped`,
-`tapdance_press_lost_counterexample`).  And the parser does not guarantee a non-empty list, so the
-index panics are reachable (`lazy_crash_iff_empty_list`, `eager_crash_iff_empty_list`).
+The model follows the code after the two `fix:` commits of this check: `evict_same_coord_events`
+evicts only the presses that were counted as taps (`no_press_is_lost`, `late_tap_starts_a_new_dance`,
+`press_behind_interrupt_is_kept`), and `parse_tap_dance` rejects an empty list, so the index panics
+are unreachable from an accepted configuration (`accepted_tap_dance_never_panics`).  What was false
+of the pinned commit is kept as counterexample theorems about the separately named pinned eviction
+`evictSameCoordPinned` (`late_tap_is_dropped`, `press_behind_interrupt_is_dropped`,
+`tapdance_press_lost_counterexample`).
 -/
 import KVerif.Lemmas.TapDanceLayout
 namespace KVerif.C17
@@ -20,32 +22,42 @@ open KVerif.L
 
 /-! ## 1. The eviction lemma -/
 
-/-- **eviction** (full, any queue, any `k`).  `evict_same_coord_events` with `k` releases to remove
-keeps every event of other coordinates, in order; drops every press of the key; drops the first `k`
+/-- **eviction** (full, any queue, any counters).  The `retain` of `evict_same_coord_events` with `r`
+releases and `p` presses of the key to remove keeps every event of other coordinates, in order;
+drops the first `p` presses of the key and keeps every later one, in order; drops the first `r`
 releases of the key and keeps the later ones, in order; and neither reorders nor invents anything. -/
-theorem eviction (w : Waiting) (k : Nat) (q : List Queued) :
-    (evictSameCoord w k q).filter (otherCoord w) = q.filter (otherCoord w) ∧
-    (∀ s ∈ evictSameCoord w k q, isPr w s = false) ∧
-    (evictSameCoord w k q).filter (isRel w) = (q.filter (isRel w)).drop k ∧
-    (evictSameCoord w k q).Sublist q :=
-  ⟨evict_others_kept w k q, evict_no_press w k q, evict_releases w k q, evict_sublist w k q⟩
+theorem eviction (w : Waiting) (r p : Nat) (q : List Queued) :
+    (evictSameCoord w r p q).filter (otherCoord w) = q.filter (otherCoord w) ∧
+    (evictSameCoord w r p q).filter (isPr w) = (q.filter (isPr w)).drop p ∧
+    (evictSameCoord w r p q).filter (isRel w) = (q.filter (isRel w)).drop r ∧
+    (evictSameCoord w r p q).Sublist q :=
+  ⟨evict_others_kept w r p q, evict_presses w r p q, evict_releases w r p q, evict_sublist w r p q⟩
+
+/-- **no press is lost** (full).  Ending a dance on `n` taps removes exactly `n − 1` presses of the
+key from the queue (fewer only if fewer are queued): every uncounted press of the key stays queued,
+in order — it will open a new dance. -/
+theorem no_press_is_lost (w : Waiting) (n : Nat) (q : List Queued) :
+    (evictTaps w n q).filter (isPr w) = (q.filter (isPr w)).drop (n - 1) ∧
+    nPr w (evictTaps w n q) = nPr w q - (n - 1) ∧
+    (n - 1 < nPr w q → ∃ s ∈ evictTaps w n q, isPr w s = true) :=
+  ⟨evictTaps_presses w n q, evictTaps_nPr w n q, evict_keeps_uncounted_presses w _ _ q⟩
 
 /-- **the dance is processed as one press and one release** (full).  On a physically possible
 history the key's queued events alternate release, press, release, … (its opening press has been
-taken out).  If all its queued presses were counted (`taps − 1` of them), then after the eviction
-the queue holds, of all the key's events, exactly its LAST release if the key has been let go, and
-nothing if it is still held — so the chosen action is pressed once (by the decision) and released
-once (by that release). -/
-theorem one_press_one_release (w : Waiting) (q : List Queued) (halt : Alt false (keyEvs w q)) :
-    nPr w (evictSameCoord w (nPr w q) q) = 0 ∧
-    ((nRel w q = nPr w q ∧ nRel w (evictSameCoord w (nPr w q) q) = 0) ∨
-     (nRel w q = nPr w q + 1 ∧
-      (evictSameCoord w (nPr w q) q).filter (isRel w) = ((q.filter (isRel w)).getLast?).toList)) := by
-  obtain ⟨h1, _, h3⟩ := evict_leaves_last_release w q halt
-  refine ⟨h1, ?_⟩
-  rcases h3 with h | ⟨h, _, h'⟩
-  · exact Or.inl h
-  · exact Or.inr ⟨h, h'⟩
+taken out).  Ending the dance on `n` taps (`n − 1` of the queued presses counted) removes exactly
+the first `n − 1` release/press pairs of the key: what is left of the key's events starts with the
+release of the LAST counted tap (if the key has been let go) — so the chosen action is pressed once,
+by the decision, and released once, by that release — followed, untouched and still alternating, by
+whatever the key did afterwards. -/
+theorem one_press_one_release (w : Waiting) (q : List Queued) (halt : Alt false (keyEvs w q))
+    (n : Nat) (hn : n - 1 ≤ nPr w q) :
+    keyEvs w (evictTaps w n q) = (keyEvs w q).drop (2 * (n - 1)) ∧
+    Alt false (keyEvs w (evictTaps w n q)) := by
+  have h := evict_keyEvs w q halt (n - 1) hn
+  refine ⟨h, ?_⟩
+  show Alt false (keyEvs w (evictSameCoord w (n - 1) (n - 1) q))
+  rw [h]
+  exact alt_drop_two _ false _ halt
 
 /-! ## 2. Counting taps -/
 
@@ -79,7 +91,7 @@ theorem tapdance_decides (w : Waiting) (acts : List Action) (T k : Nat) (hc : w.
     (q : List Queued) (aq : ActionQueue) :
     (∀ n, decidesOn (cd w) acts.length k q = some n →
       (∃ a, tdPick acts n = some a ∧ ∃ w', tickWt w q aq =
-          .ok (w', evictSameCoord w (n - 1) q, aq, some (.tap, none)) ∧ w'.tap = a ∧ w'.coord = w.coord ∧
+          .ok (w', evictTaps w n q, aq, some (.tap, none)) ∧ w'.tap = a ∧ w'.coord = w.coord ∧
           w'.layerStack = w.layerStack) ∨
       (acts = [] ∧ tickWt w q aq = .error (.indexOOB "tap-dance actions"))) ∧
     (decidesOn (cd w) acts.length k q = none →
@@ -93,7 +105,7 @@ theorem tapdance_decides (w : Waiting) (acts : List Action) (T k : Nat) (hc : w.
     · left
       obtain ⟨f1, _, _, _, _, f6, _⟩ := tickWtTd_fields hw'
       refine ⟨a, ha, w', ?_, hta, f1, f6⟩
-      rw [hw', evict_coord_congr (show (cd w).coord = w.coord from rfl)]
+      rw [hw', evictTaps_coord_congr (show (cd w).coord = w.coord from rfl)]
       rfl
     · right
       exact ⟨he, by rw [hcr]⟩
@@ -103,7 +115,9 @@ theorem tapdance_decides (w : Waiting) (acts : List Action) (T k : Nat) (hc : w.
     exact ⟨w', by rw [hw']; rfl, (f8 rfl).1, f1, f6, f10⟩
 
 /-- **the index panic of the lazy form** (full): `tds.actions[idx]` is out of bounds exactly for the
-empty list (which `parse_tap_dance` accepts), on the tick the dance is decided — never otherwise. -/
+empty list, on the tick the dance is decided — never otherwise.  `parse_tap_dance` rejects the empty
+list since the `fix:` commit, so this is unreachable from an accepted configuration
+(`accepted_tap_dance_never_panics`). -/
 theorem lazy_crash_iff_empty_list (w : Waiting) (acts : List Action) (T k : Nat) (q : List Queued) :
     (∃ c, tickWtTd w acts T k q = .error c) ↔ (acts = [] ∧ decidesOn w acts.length k q ≠ none) := by
   have hcases := tickWtTd_cases w acts T k q
@@ -133,7 +147,7 @@ theorem tick_refines_abstract_step {w : Waiting} {acts : List Action} {T k : Nat
     match specStep T acts.length k w.timeout (arrivalOf w (w.prevQueueLen == 255) b) with
     | .decided n =>
       ∃ a, tdPick acts n = some a ∧ ∃ w', tickWtTd (cd w) acts T k (q ++ b) =
-        .ok (w', evictSameCoord w (n - 1) (q ++ b), some .tap) ∧ w'.tap = a ∧ w'.coord = w.coord
+        .ok (w', evictTaps w n (q ++ b), some .tap) ∧ w'.tap = a ∧ w'.coord = w.coord
     | .pending k' rem' =>
       ∃ w', tickWtTd (cd w) acts T k (q ++ b) = .ok (w', q ++ b, none) ∧ w'.timeout = rem' ∧
         Inv w' acts T k' (q ++ b) ∧ w'.prevQueueLen ≠ 255 ∧ w'.coord = w.coord ∧ w'.tap = w.tap ∧
@@ -158,7 +172,7 @@ theorem run_refines_abstract_machine {acts : List Action} {T : Nat} (hne : acts 
     match specRun T acts.length k w.timeout (arrivals w (w.prevQueueLen == 255) bs) with
     | (t, .decided n) =>
       ∃ a, tdPick acts n = some a ∧ ∃ w', tdDrive w q bs =
-        .ok (t, w', evictSameCoord w (n - 1) (q ++ (bs.take t).flatten), some .tap) ∧ w'.tap = a ∧
+        .ok (t, w', evictTaps w n (q ++ (bs.take t).flatten), some .tap) ∧ w'.tap = a ∧
         w'.coord = w.coord
     | (t, .pending k' rem') =>
       ∃ w', tdDrive w q bs = .ok (t, w', q ++ bs.flatten, none) ∧ w'.timeout = rem' ∧
@@ -178,7 +192,7 @@ theorem tapdance_nth {acts : List Action} {T : Nat} (hne : acts ≠ []) (hT : 1 
     (tail : List (List Queued)) (hq : ∀ b ∈ tail, QuietBatch b) (hl : T ≤ tail.length)
     (hlen : (q ++ (bs ++ tail).flatten).length < 255) :
     ∃ a, acts[k + m - 1]? = some a ∧ ∃ w', tdDrive w q (bs ++ tail) =
-      .ok (g + T, w', evictSameCoord w (k + m - 1) (q ++ ((bs ++ tail).take (g + T)).flatten), some .tap) ∧
+      .ok (g + T, w', evictTaps w (k + m) (q ++ ((bs ++ tail).take (g + T)).flatten), some .tap) ∧
       w'.tap = a := by
   have href := tdDrive_refines hne (bs ++ tail) w q k hI hlen
   have hspec : specRun T acts.length k w.timeout (arrivals w (w.prevQueueLen == 255) (bs ++ tail)) =
@@ -200,7 +214,7 @@ theorem tapdance_exhausted {acts : List Action} {T : Nat} (hne : acts ≠ [])
     (hlen : (q ++ (bs ++ (quiets ++ b :: rest)).flatten).length < 255) :
     ∃ a, acts.getLast? = some a ∧ ∃ w', tdDrive w q (bs ++ (quiets ++ b :: rest)) =
       .ok (g + quiets.length + 1, w',
-        evictSameCoord w (acts.length - 1) (q ++ ((bs ++ (quiets ++ b :: rest)).take (g + quiets.length + 1)).flatten),
+        evictTaps w acts.length (q ++ ((bs ++ (quiets ++ b :: rest)).take (g + quiets.length + 1)).flatten),
         some .tap) ∧ w'.tap = a := by
   have href := tdDrive_refines hne (bs ++ (quiets ++ b :: rest)) w q k hI hlen
   have hspec : specRun T acts.length k w.timeout
@@ -228,7 +242,7 @@ theorem tapdance_deadline_exact {acts : List Action} {T : Nat} (hne : acts ≠ [
     (bs.length < T → ∃ w', tdDrive w q bs = .ok (bs.length, w', q ++ bs.flatten, none) ∧
       w'.timeout = T - bs.length) ∧
     (T ≤ bs.length → ∃ a, acts[k - 1]? = some a ∧ ∃ w', tdDrive w q bs =
-      .ok (T, w', evictSameCoord w (k - 1) (q ++ (bs.take T).flatten), some .tap) ∧ w'.tap = a) := by
+      .ok (T, w', evictTaps w k (q ++ (bs.take T).flatten), some .tap) ∧ w'.tap = a) := by
   have href := tdDrive_refines hne bs w q k hI hlen
   have hs := spec_timeout_exact (T := T) hk (arrivals w (w.prevQueueLen == 255) bs) (arrivals_quiet hq w _) T hT
   rw [arrivals_length] at hs
@@ -255,7 +269,7 @@ theorem tapdance_interrupted {acts : List Action} {T : Nat} (hne : acts ≠ [])
     let n := k + nPr w (b.takeWhile (fun s => !otherPress w s))
     ∃ a, tdPick acts n = some a ∧ ∃ w' q', tdDrive w q (quiets ++ b :: rest) =
       .ok (quiets.length + 1, w', q', some .tap) ∧ w'.tap = a ∧
-      q' = evictSameCoord w (n - 1) (q ++ (quiets ++ [b]).flatten) ∧
+      q' = evictTaps w n (q ++ (quiets ++ [b]).flatten) ∧
       q'.filter (otherCoord w) = (q ++ (quiets ++ [b]).flatten).filter (otherCoord w) ∧
       ∃ x ∈ q', otherPress w x = true := by
   intro n
@@ -277,14 +291,9 @@ theorem tapdance_interrupted {acts : List Action} {T : Nat} (hne : acts ≠ [])
     exact this
   rw [hspec] at href
   obtain ⟨a, ha, w', hw', hta, _⟩ := href
-  have htake : ∀ (l : List (List Queued)), (l ++ b :: rest).take (l.length + 1) = l ++ [b] := by
-    intro l
-    induction l with
-    | nil => rfl
-    | cons x t ih => simp only [List.cons_append, List.length_cons, List.take_succ_cons, ih]
-  have htake := htake quiets
+  have htake := take_len_succ b rest quiets
   rw [htake] at hw'
-  refine ⟨a, ha, w', _, hw', hta, rfl, evict_others_kept w _ _, ?_⟩
+  refine ⟨a, ha, w', _, hw', hta, rfl, evictTaps_others_kept w _ _, ?_⟩
   -- the interrupting press is an event of another coordinate, hence kept
   obtain ⟨x, hx, hxo⟩ : ∃ x ∈ b, otherPress w x = true := by simpa [interrupted] using hb
   have hoc : otherCoord w x = true := by
@@ -296,23 +305,24 @@ theorem tapdance_interrupted {acts : List Action} {T : Nat} (hne : acts ≠ [])
   have hmem : x ∈ (q ++ (quiets ++ [b]).flatten).filter (otherCoord w) := by
     rw [List.mem_filter]
     exact ⟨by simp [hx], hoc⟩
-  rw [← evict_others_kept w (n - 1)] at hmem
+  rw [← evictTaps_others_kept w n] at hmem
   exact ⟨x, (List.mem_filter.mp hmem).1, hxo⟩
 
-/-! ## 5. What is false of the code: uncounted presses are dropped -/
+/-! ## 5. Uncounted presses stay queued (and what the pinned commit did instead) -/
 
-/-- **late_tap_is_dropped** (full; this is a DEFECT of the code, stated for every `T`, count and
-queue).  When the deadline tick comes (`T − 1` ticks with only releases, then the `T`-th), whatever
-arrives with that tick is not counted — the dance is decided on the OLD count `k` — and yet no press
-of the key survives in the queue.  So a tap first seen on the deadline tick is neither the
-`(k+1)`-th tap of this dance nor the first tap of a new one: the key press is lost. -/
-theorem late_tap_is_dropped {acts : List Action} {T : Nat} (hne : acts ≠ [])
+/-- **late_tap_starts_a_new_dance** (full, every `T`, count and queue).  When the deadline tick
+comes (`T − 1` ticks with only releases, then the `T`-th), whatever arrives with that tick is not
+counted — the dance is decided on the OLD count `k` — and every press of the key that arrived with
+it is still in the queue afterwards: the late tap opens a new dance. -/
+theorem late_tap_starts_a_new_dance {acts : List Action} {T : Nat} (hne : acts ≠ [])
     {w : Waiting} {q : List Queued} {k : Nat} (hI : Inv w acts T k q) (hk : k < acts.length)
     (quiets : List (List Queued)) (hq : ∀ b ∈ quiets, QuietBatch b) (hl : quiets.length + 1 = w.timeout)
     (b : List Queued) (rest : List (List Queued))
     (hlen : (q ++ (quiets ++ b :: rest).flatten).length < 255) :
     ∃ a, acts[k - 1]? = some a ∧ ∃ w' q', tdDrive w q (quiets ++ b :: rest) =
-      .ok (w.timeout, w', q', some .tap) ∧ w'.tap = a ∧ ∀ s ∈ q', isPr w s = false := by
+      .ok (w.timeout, w', q', some .tap) ∧ w'.tap = a ∧
+      q' = evictTaps w k (q ++ (quiets ++ [b]).flatten) ∧
+      q'.filter (isPr w) = b.filter (isPr w) := by
   have href := tdDrive_refines hne (quiets ++ b :: rest) w q k hI hlen
   have hspec : specRun T acts.length k w.timeout (arrivals w (w.prevQueueLen == 255) (quiets ++ b :: rest)) =
       (w.timeout, .decided k) := by
@@ -322,32 +332,60 @@ theorem late_tap_is_dropped {acts : List Action} {T : Nat} (hne : acts ≠ [])
   rw [hspec] at href
   obtain ⟨a, ha, w', hw', hta, _⟩ := href
   rw [tdPick_nth acts k (by omega)] at ha
-  exact ⟨a, ha, w', _, hw', hta, evict_no_press w _ _⟩
+  rw [← hl, take_len_succ] at hw'
+  rw [hl] at hw'
+  refine ⟨a, ha, w', _, hw', hta, rfl, ?_⟩
+  rw [evictTaps_presses]
+  have hq1 : (q.filter (isPr w)).length = k - 1 := by
+    have := seenTaps_not_interrupted hI.clean
+    rw [hI.seen] at this
+    show nPr w q = k - 1
+    omega
+  simp only [List.flatten_append, List.flatten_cons, List.flatten_nil, List.append_nil, List.filter_append,
+    quiets_no_press hq w, List.nil_append]
+  exact drop_append_len _ _ _ hq1
 
-/-- **press_behind_interrupt_is_dropped** (full; the same DEFECT on the other path).  When another
-key's press ends the dance, the count stops at that press — but every press of the dance key queued
-BEHIND it is dropped from the queue as well, uncounted. -/
-theorem press_behind_interrupt_is_dropped (w : Waiting) (k len : Nat) (pre post : List Queued) (x : Queued)
+/-- **press_behind_interrupt_is_kept** (full).  When another key's press ends the dance, the count
+stops at that press, and every press of the dance key queued BEHIND it stays queued, in order. -/
+theorem press_behind_interrupt_is_kept (w : Waiting) (k len : Nat) (pre post : List Queued) (x : Queued)
     (hpre : interrupted w pre = false) (hx : otherPress w x = true)
     (hfast : ¬ ((pre ++ x :: post).length % 256 == w.prevQueueLen && w.timeout > 0) = true)
     (hto : w.timeout ≠ 0) :
     handleTapDance w k len (pre ++ x :: post) =
-      (evictSameCoord w (nPr w pre) (pre ++ x :: post), some .tap, 1 + nPr w pre) ∧
-    (∀ s ∈ evictSameCoord w (nPr w pre) (pre ++ x :: post), isPr w s = false) := by
-  refine ⟨?_, evict_no_press w _ _⟩
-  rw [handleTapDance_spec]
-  have h2 : (w.timeout == 0) = false := by simpa using hto
-  have hi : interrupted w (pre ++ x :: post) = true := by
-    simp [interrupted, hx]
-  have hall : ∀ y ∈ pre, (fun s => !otherPress w s) y = true := by
-    intro y hy
-    have := List.any_eq_false.mp hpre y hy
-    simpa using this
-  have hs : seenTaps w (pre ++ x :: post) = 1 + nPr w pre := by
-    unfold seenTaps
-    rw [takeWhile_append_all _ hall, List.takeWhile_cons]
-    simp [hx]
-  simp only [hfast, if_false, h2, Bool.false_eq_true, hi, Bool.true_or, if_true, hs, Nat.add_sub_cancel_left]
+      (evictTaps w (1 + nPr w pre) (pre ++ x :: post), some .tap, 1 + nPr w pre) ∧
+    (evictTaps w (1 + nPr w pre) (pre ++ x :: post)).filter (isPr w) = post.filter (isPr w) := by
+  constructor
+  · rw [handleTapDance_spec]
+    have h2 : (w.timeout == 0) = false := by simpa using hto
+    have hi : interrupted w (pre ++ x :: post) = true := by
+      simp [interrupted, hx]
+    have hall : ∀ y ∈ pre, (fun s => !otherPress w s) y = true := by
+      intro y hy
+      have := List.any_eq_false.mp hpre y hy
+      simpa using this
+    have hs : seenTaps w (pre ++ x :: post) = 1 + nPr w pre := by
+      unfold seenTaps
+      rw [takeWhile_append_all _ hall, List.takeWhile_cons]
+      simp [hx]
+    simp only [hfast, if_false, h2, Bool.false_eq_true, hi, Bool.true_or, if_true, hs]
+  · rw [evictTaps_presses, Nat.add_sub_cancel_left, List.filter_append, List.filter_cons,
+      otherPress_not_isPr hx]
+    exact drop_append_len _ _ _ rfl
+
+/-- **late_tap_is_dropped** (counterexample material: the eviction of the PINNED commit).  It removed
+every queued press of the key, so whenever a press was queued that had not been counted
+(`k − 1 < nPr w q`), that tap was lost — while the eviction of the current code keeps it. -/
+theorem late_tap_is_dropped (w : Waiting) (k : Nat) (q : List Queued) (h : k - 1 < nPr w q) :
+    (∀ s ∈ evictSameCoordPinned w (k - 1) q, isPr w s = false) ∧
+    ∃ s ∈ evictTaps w k q, isPr w s = true :=
+  ⟨pinned_no_press w _ q, evict_keeps_uncounted_presses w _ _ q h⟩
+
+/-- **press_behind_interrupt_is_dropped** (counterexample material, PINNED commit): with the count
+stopped at another key's press, the pinned eviction also dropped every press of the dance key queued
+behind it. -/
+theorem press_behind_interrupt_is_dropped (w : Waiting) (pre post : List Queued) (x : Queued) :
+    ∀ s ∈ evictSameCoordPinned w (nPr w pre) (pre ++ x :: post), isPr w s = false :=
+  pinned_no_press w _ _
 
 /-- a concrete waiting state: dance key `a` = (0,30), list `(q w)`, `T = 3`, one tap counted, the
 deadline one tick away, the queue (length 1: the key's release) read on the previous tick -/
@@ -355,15 +393,18 @@ def lateW : Waiting :=
   { coord := (0, 30), timeout := 1, delay := 0, ticks := 2, hold := .noOp, tap := .noOp, timeoutAction := .noOp,
     config := .tapDance [.keyCode 16, .keyCode 17] 3 1, layerStack := [0], prevQueueLen := 1 }
 
-/-- **tapdance_press_lost_counterexample** (concrete witness; reproduced on the real code, see
-corpus/C17.txt and KNOWN_FINDINGS.jsonl).  `(tap-dance 3 (q w))`: the key was tapped once, its
-second press arrives with the deadline tick.  The tick decides on ONE tap (`q`), and the queue it
-leaves holds two releases of the key and no press: the second tap is lost. -/
+/-- **tapdance_press_lost_counterexample** (concrete witness against the PINNED commit; input in
+corpus/C17.txt, fixed finding in KNOWN_FINDINGS.jsonl).  `(tap-dance 3 (q w))`: the key was tapped
+once, its second press arrives with the deadline tick.  The pinned eviction left two releases of the
+key and no press — the second tap was lost.  The current code decides on ONE tap (`q`) as before and
+leaves the second press queued. -/
 theorem tapdance_press_lost_counterexample :
+    evictSameCoordPinned lateW 0 [⟨.release (0, 30), 2⟩, ⟨.press (0, 30), 1⟩, ⟨.release (0, 30), 1⟩] =
+      [⟨.release (0, 30), 2⟩, ⟨.release (0, 30), 1⟩] ∧
     ∃ w', tickWt lateW [⟨.release (0, 30), 2⟩, ⟨.press (0, 30), 1⟩, ⟨.release (0, 30), 1⟩] [] =
-      .ok (w', [⟨.release (0, 30), 2⟩, ⟨.release (0, 30), 1⟩], [], some (.tap, none)) ∧
+      .ok (w', [⟨.release (0, 30), 2⟩, ⟨.press (0, 30), 1⟩, ⟨.release (0, 30), 1⟩], [], some (.tap, none)) ∧
       w'.tap = .keyCode 16 := by
-  refine ⟨{ lateW with timeout := 0, ticks := 3, tap := .keyCode 16, prevQueueLen := 2 }, ?_, rfl⟩
+  refine ⟨rfl, { lateW with timeout := 0, ticks := 3, tap := .keyCode 16, prevQueueLen := 3 }, ?_, rfl⟩
   rw [tickWt_td lateW _ 3 1 rfl]
   rfl
 
@@ -383,7 +424,7 @@ theorem exactly_one_tap_dance_action (s : Layout) (w : Waiting) (acts : List Act
     (∃ n, decidesOn (cd w) acts.length k s.queue = some n ∧
       ((∃ a, tdPick acts n = some a ∧
           tickMain s =
-            match doAction FUEL { s with waiting := none, queue := evictSameCoord w (n - 1) s.queue }
+            match doAction FUEL { s with waiting := none, queue := evictTaps w n s.queue }
                 a w.coord 0 false w.layerStack with
             | .error e => .error e
             | .ok (s1, cu) => .ok (tapPost s1, cu)) ∨
@@ -401,12 +442,12 @@ theorem interrupt_after_action (s : Layout) (w : Waiting) (acts : List Action) (
     (hd : decidesOn (cd w) acts.length k s.queue = some n) :
     (∀ kc, tdPick acts n = some (.keyCode kc) →
       ∃ s', tickMain s = .ok (s', .noEvent) ∧ s'.waiting = none ∧
-        s'.queue = evictSameCoord w (n - 1) s.queue ∧
+        s'.queue = evictTaps w n s.queue ∧
         s'.queue.filter (otherCoord w) = s.queue.filter (otherCoord w) ∧
         s'.states = pushCap STATES_CAP (s.states.filter (fun st => !st.clearOnNextAction)) (.normalKey kc w.coord 0)) ∧
     (∀ l, tdPick acts n = some (.layer l) →
       ∃ s', tickMain s = .ok (s', .noEvent) ∧ s'.waiting = none ∧
-        s'.queue = evictSameCoord w (n - 1) s.queue ∧
+        s'.queue = evictTaps w n s.queue ∧
         s'.queue.filter (otherCoord w) = s.queue.filter (otherCoord w) ∧
         s'.states = pushCap STATES_CAP (s.states.filter (fun st => !st.clearOnNextAction)) (.layerModifier l w.coord)) := by
   have hcases := lazy_tick_cases s w acts T k hw hc
@@ -422,15 +463,15 @@ theorem interrupt_after_action (s : Layout) (w : Waiting) (acts : List Action) (
         injection ha with ha
         subst ha
         rw [FUEL_two, doAction_keyCode] at ht
-        obtain ⟨p1, p2, _, _, p5, _⟩ := prelude_fields ({ s with waiting := none, queue := evictSameCoord w (n - 1) s.queue } : Layout) w.coord
-        obtain ⟨a1, a2, _, _, a5⟩ := armKeyCode_fields (prelude ({ s with waiting := none, queue := evictSameCoord w (n - 1) s.queue } : Layout) w.coord) (.keyCode kc) kc w.coord false
+        obtain ⟨p1, p2, _, _, p5, _⟩ := prelude_fields ({ s with waiting := none, queue := evictTaps w n s.queue } : Layout) w.coord
+        obtain ⟨a1, a2, _, _, a5⟩ := armKeyCode_fields (prelude ({ s with waiting := none, queue := evictTaps w n s.queue } : Layout) w.coord) (.keyCode kc) kc w.coord false
         refine ⟨_, ht, ?_, ?_, ?_, ?_⟩
         · exact a2.trans p2
         · exact a1.trans p1
         · have hq' := a1.trans p1
           show List.filter _ (tapPost _).queue = _
           rw [show ∀ x : Layout, (tapPost x).queue = x.queue from fun _ => rfl, hq']
-          exact evict_others_kept w _ _
+          exact evictTaps_others_kept w _ _
         · exact a5.trans (by rw [p5])
       · subst he; cases hp
     · intro l hp
@@ -439,15 +480,15 @@ theorem interrupt_after_action (s : Layout) (w : Waiting) (acts : List Action) (
         injection ha with ha
         subst ha
         rw [FUEL_two, doAction_layer] at ht
-        obtain ⟨p1, p2, _, _, p5, _⟩ := prelude_fields ({ s with waiting := none, queue := evictSameCoord w (n - 1) s.queue } : Layout) w.coord
-        obtain ⟨a1, a2, _, _, a5⟩ := armLayer_fields (prelude ({ s with waiting := none, queue := evictSameCoord w (n - 1) s.queue } : Layout) w.coord) l w.coord false
+        obtain ⟨p1, p2, _, _, p5, _⟩ := prelude_fields ({ s with waiting := none, queue := evictTaps w n s.queue } : Layout) w.coord
+        obtain ⟨a1, a2, _, _, a5⟩ := armLayer_fields (prelude ({ s with waiting := none, queue := evictTaps w n s.queue } : Layout) w.coord) l w.coord false
         refine ⟨_, ht, ?_, ?_, ?_, ?_⟩
         · exact a2.trans p2
         · exact a1.trans p1
         · have hq' := a1.trans p1
           show List.filter _ (tapPost _).queue = _
           rw [show ∀ x : Layout, (tapPost x).queue = x.queue from fun _ => rfl, hq']
-          exact evict_others_kept w _ _
+          exact evictTaps_others_kept w _ _
         · exact a5.trans (by rw [p5])
       · subst he; cases hp
 
@@ -456,9 +497,9 @@ the single `do_action` starts from already has the interrupting key's events que
 no waiting state; what that action itself then does to the queue (a one-shot overflow re-enters
 `event`) is not characterised here — covered by the correspondence and the trace oracle. -/
 theorem interrupt_after_action_partial (s : Layout) (w : Waiting) (n : Nat) :
-    ({ s with waiting := none, queue := evictSameCoord w (n - 1) s.queue } : Layout).queue.filter (otherCoord w) =
+    ({ s with waiting := none, queue := evictTaps w n s.queue } : Layout).queue.filter (otherCoord w) =
       s.queue.filter (otherCoord w) :=
-  evict_others_kept w _ _
+  evictTaps_others_kept w _ _
 
 /-! ## 7. The eager form -/
 
@@ -531,7 +572,8 @@ theorem tapdance_eager_first (f : Nat) (s : Layout) (acts : List Action) (T : Na
   ⟨eager_first_press f s acts T c d os ls, fun h => armEager_fresh s c acts T (Or.inl h)⟩
 
 /-- **the index panic of the eager form** (full): `td.actions[0]` is out of bounds exactly for the
-empty list (which `parse_tap_dance` accepts); the other index, `tde.actions[num_taps]`, never is
+empty list (rejected by `parse_tap_dance` since the `fix:` commit: unreachable from an accepted
+configuration, `accepted_tap_dance_never_panics`); the other index, `tde.actions[num_taps]`, never is
 (`tapdance_eager_each`). -/
 theorem eager_crash_iff_empty_list (f : Nat) (s : Layout) (acts : List Action) (T : Nat) (c : Coord) (d : Nat)
     (os : Bool) (ls : List Nat) :
@@ -547,7 +589,26 @@ theorem eager_crash_iff_empty_list (f : Nat) (s : Layout) (acts : List Action) (
     | error e => simp
     | ok r => simp
 
+/-- **accepted_tap_dance_never_panics** (full).  `parse_tap_dance` accepts a tap-dance only with a
+non-zero timeout and — since the `fix:` commit — a non-empty list (`Accepted`; checked by the drivers
+on every configuration the real parser produced).  For such a tap-dance neither index can go out of
+bounds: the lazy arm of `tick_wt` always returns, and the eager arm's `td.actions[0]` exists (the
+other eager index is guarded by the expiry test: `tapdance_eager_each`). -/
+theorem accepted_tap_dance_never_panics {acts : List Action} {T : Nat} (h : Accepted acts T) :
+    (∀ (w : Waiting) (k : Nat) (q : List Queued), ∃ r, tickWtTd w acts T k q = .ok r) ∧
+    (∀ (f : Nat) (s : Layout) (c : Coord) (d : Nat) (os : Bool) (ls : List Nat),
+      ∃ a0, acts[0]? = some a0 ∧
+        dispatch (f + 1) s (.tapDance acts T true) c d os ls =
+          match doAction f (armEager s c acts T) a0 c d false ls with
+          | .error e => .error e
+          | .ok r => .ok (r.1, .noEvent)) := by
+  refine ⟨tickWtTd_total h, fun f s c d os ls => ?_⟩
+  cases hacts : acts with
+  | nil => exact absurd hacts h.nonempty
+  | cons a0 rest => exact ⟨a0, rfl, by rw [eager_first_press]; rfl⟩
+
 /-! ## Non-vacuity -/
+
 
 /-- the waiting state `do_action` creates for `(tap-dance 3 (q w x))` on key `a` -/
 def freshW : Waiting :=
@@ -575,5 +636,11 @@ example : ∃ w', tdDrive freshW [] ([[relA], [prA]] ++ [[relA], [], []]) =
 example : Alt false (keyEvs freshW [relA, prA, relA]) := ⟨rfl, rfl, rfl, trivial⟩
 example : interrupted freshW [relA, prB] = true := by decide
 example : decidesOn (cd lateW) 2 1 [relA, prA, relA] = some 1 := by decide
+example : Accepted [.keyCode 16, .keyCode 17] 3 := ⟨by simp, by decide⟩
+/-- an uncounted press is queued: the hypothesis of `late_tap_is_dropped` / `no_press_is_lost` -/
+example : 1 - 1 < nPr lateW [relA, prA, relA] := by decide
+/-- three taps queued behind the opening press, two of them counted: the key's events left are those
+after the first two release/press pairs -/
+example : keyEvs freshW (evictTaps freshW 3 [relA, prA, relA, prA, relA, prA]) = [false, true] := by decide
 
 end KVerif.C17
